@@ -47,7 +47,7 @@ class Main(Part):
 
     def budget(self, tier):
         return {"quick": dict(examples=300, shards=6, seconds=80),
-                "thorough": dict(examples=3000, shards=16, seconds=900)}[tier]
+                "thorough": dict(examples=3000, shards=16, seconds=600)}[tier]
 
     def strategy(self, tier):
         return gen_metrics.case_metrics(n_min=1, n_max=3, with_inputs=False)
